@@ -38,8 +38,11 @@ typedef struct Ent {
 	bool      finiing;
 	uint64_t  expire_ms;   // valid while accepted
 	uint64_t  start_ms;
-	bool      prev_late;   // previous submission completed (not by timeout)
-	                       // after its deadline had already passed
+	bool      prev_late;   // an earlier submission completed (not by timeout)
+	                       // after its deadline had already passed, and no
+	                       // timeout has been delivered for this aio since
+	bool      in_start;    // inside nni_aio_start / nni_sleep_aio
+	uint64_t  refusal_mask; // bit (k mod 64): completion k was a refused start
 } Ent;
 
 #define HSIZE (1u << 16)
@@ -192,6 +195,10 @@ note_completion(nni_task *task, bool sync)
 		    "its previous completion has not yet begun",
 		    e->id, (int) aio->a_result);
 	}
+	if (e->in_start)
+		e->refusal_mask |= 1ull << (e->completions & 63);
+	else
+		e->refusal_mask &= ~(1ull << (e->completions & 63));
 	e->completions++;
 	C.completions++;
 	if (sync)
@@ -220,9 +227,10 @@ note_completion(nni_task *task, bool sync)
 			    e->id, (unsigned long long) (e->expire_ms - now));
 		}
 	}
-	if (e->accepted) {
-		e->prev_late = aio->a_result != NNG_ETIMEDOUT && e->expire_ms != 0 &&
-		    sim_now_ms() >= e->expire_ms;
+	if (aio->a_result == NNG_ETIMEDOUT) {
+		e->prev_late = false; // the expire thread has dealt with this aio
+	} else if (e->accepted && e->expire_ms != 0 && sim_now_ms() >= e->expire_ms) {
+		e->prev_late = true;
 	}
 	e->accepted = false;
 	e->sleeping = false;
@@ -256,7 +264,11 @@ __wrap_nni_aio_start(nni_aio *aio, nni_aio_cancel_fn fn, void *data)
 			sim_probe("aio_start_while_pending");
 	}
 	bool sleeping = aio->a_sleep;
-	bool ok       = __real_nni_aio_start(aio, fn, data);
+	if (e != NULL)
+		e->in_start = true;
+	bool ok = __real_nni_aio_start(aio, fn, data);
+	if (e != NULL)
+		e->in_start = false;
 	if (e != NULL)
 		sim_debug("aio#%u start ok=%d timeout=%d expire=%llu", e->id, (int) ok,
 		    (int) aio->a_timeout, (unsigned long long) aio->a_expire);
@@ -287,16 +299,25 @@ __wrap_nni_aio_stop(nni_aio *aio)
 	C.stops++;
 	if (e == NULL || e->dead)
 		return;
-	if (e->cb != NULL && e->cb_begun != e->cb_ended) {
-		sim_violation("C02", "callback_running_after_stop",
-		    "aio #%u: nni_aio_stop returned while its callback is running",
-		    e->id);
-	}
-	if (e->cb != NULL && e->completions != e->cb_begun) {
-		sim_violation("C02", "callback_pending_after_stop",
-		    "aio #%u: nni_aio_stop returned with a dispatched callback "
-		    "that has not run",
-		    e->id);
+	// A start attempted after (or racing with) the stop is refused and
+	// answered by dispatching the callback with NNG_ESTOPPED: that is the
+	// completion of the new submission, not a late completion of the
+	// stopped one, so refusals are exempt.
+	if (e->cb != NULL) {
+		for (uint32_t k = e->cb_ended; k < e->completions; k++) {
+			bool refusal = (e->refusal_mask >> (k & 63)) & 1;
+			if (refusal)
+				continue;
+			if (k < e->cb_begun)
+				sim_violation("C02", "callback_running_after_stop",
+				    "aio #%u: nni_aio_stop returned while its "
+				    "callback is running",
+				    e->id);
+			sim_violation("C02", "callback_pending_after_stop",
+			    "aio #%u: nni_aio_stop returned with a dispatched "
+			    "callback that has not run",
+			    e->id);
+		}
 	}
 	if (e->accepted) {
 		sim_violation("C02", "pending_after_stop",
@@ -333,7 +354,11 @@ __wrap_nni_sleep_aio(nng_duration ms, nng_aio *aio)
 	// so account for the accepted start here.
 	Ent     *e      = mon_off ? NULL : lookup(&aio->a_task);
 	uint32_t before = e ? e->completions : 0;
+	if (e != NULL)
+		e->in_start = true;
 	__real_nni_sleep_aio(ms, aio);
+	if (e != NULL)
+		e->in_start = false;
 	if (e != NULL && !e->dead && e->completions == before && aio->a_sleep) {
 		C.accepted++;
 		e->starts++;
